@@ -117,7 +117,7 @@ def realise(case, seed=0):
         form = inner(grad(u), grad(v)) * dX
     elif term == "conv":
         b = coef("vP1")
-        form = dot(b, grad(u)) * v * dX
+        form = inner(dot(b, grad(u)), v) * dX
     elif term == "coefmass":
         f = coef("DG0" if ek in ("DG0", "real") else "P1")
         form = f * inner(u, v) * dX
@@ -127,16 +127,16 @@ def realise(case, seed=0):
         C = ufl.Constant(dom, shape=(gd, gd))
         form = inner(dot(grad(u), C), grad(v)) * dX
     elif term == "divdiv":
-        form = div(u) * div(v) * dX
+        form = inner(div(u), div(v)) * dX
     elif term == "curlcurl":
         form = inner(ufl.curl(u), ufl.curl(v)) * dX
     elif term == "mixeddiv":
         a, p = ufl.split(u)
         b, q = ufl.split(v)
         if ek == "TH":
-            form = (inner(grad(a), grad(b)) - p * div(b) - q * div(a)) * dX
+            form = (inner(grad(a), grad(b)) - inner(p, div(b)) - inner(div(a), q)) * dX
         else:
-            form = (dot(a, b) + p * div(b) + div(a) * q) * dX
+            form = (inner(a, b) + inner(p, div(b)) + inner(div(a), q)) * dX
     elif term == "load":
         F = ufl.Coefficient(V)
         form = inner(F, v) * dX
@@ -151,15 +151,15 @@ def realise(case, seed=0):
         form = x[0] * x[gd - 1] * F * dX
     elif term == "deriv":
         F = ufl.Coefficient(V)
-        form = ufl.derivative(F**2 * v * dX, F, u)
+        form = ufl.derivative(inner(F**2, v) * dX, F, u)
     elif term == "cond":
         F, G = ufl.Coefficient(V), coef("P1")
         c1 = conditional(ufl.lt(F, 0.5), 2, 0.5)
-        c2 = conditional(ufl.And(ufl.gt(x[0], 0.25), ufl.Not(ufl.le(G, 1.5))), u * v, 3 * u * v)
-        form = (c1 * u * v + c2) * dX
+        c2 = conditional(ufl.And(ufl.gt(x[0], 0.25), ufl.Not(ufl.le(G, 1.5))), inner(u, v), 3 * inner(u, v))
+        form = (c1 * inner(u, v) + c2) * dX
     elif term == "absmax":
         F, G = ufl.Coefficient(V), coef("P1")
-        form = (abs(F) * u * v + ufl.max_value(F, G) * u * v + ufl.min_value(F, 2) * u * v) * dX
+        form = (abs(F) * inner(u, v) + ufl.max_value(F, G) * inner(u, v) + ufl.min_value(F, 2) * inner(u, v)) * dX
     elif term == "tworules":
         f, g = coef("P1"), coef("P1")
         d1 = dx(metadata=custom_md(cell, which))
@@ -167,6 +167,11 @@ def realise(case, seed=0):
         form = f * inner(u, v) * d1 + g * inner(grad(u), grad(v)) * d2 + inner(u, v) * d1
     elif term == "hess":
         form = inner(grad(grad(u)), grad(grad(v))) * dX
+    elif term == "cplx":
+        F, G = ufl.Coefficient(V), coef("P1")
+        K = ufl.Constant(dom)
+        form = (inner(ufl.conj(F) * u, v) + ufl.real(G) * inner(u, v) + ufl.imag(G) * K * inner(u, v)
+                + abs(K) * inner(u, v) + inner(grad(u), ufl.conj(K) * grad(v))) * dX
     else:
         raise ValueError(term)
     return {"form": form, "exact_ok": rule == "exact", "case": case, "gdim": gd, "tdim": td}
@@ -303,3 +308,41 @@ def realise_expr(item):
         pts = [[Fr(float(c)).limit_denominator(64) for c in p] for p in el2.points]
     P = np.array([[float(c) for c in p] for p in pts], dtype=np.float64).reshape(len(pts), len(pts[0]))
     return {"expr": e, "points": P, "case": case}
+
+
+def realise_tp(item):
+    """Tensor-product (sum-factorisable) elements on quadrilaterals / hexahedra: item['tp'] = dict(cell, degree, term)."""
+    ensure_repo_on_path()
+    import basix
+    import basix.ufl as bu
+    import ufl
+    from ufl import ds, dx, grad, inner
+
+    t = item["tp"]
+    cell, deg, term = t["cell"], t["degree"], t["term"]
+    ct = basix.CellType[cell]
+    td = TDIM[cell]
+
+    def tp(d, shape=None):
+        e = bu.wrap_element(basix.create_tp_element(basix.ElementFamily.P, ct, d, basix.LagrangeVariant.gll_warped))
+        return e if shape is None else bu.blocked_element(e, shape=shape)
+
+    dom = ufl.Mesh(tp(1, (td,)))
+    V = ufl.FunctionSpace(dom, tp(deg))
+    u, v = ufl.TrialFunction(V), ufl.TestFunction(V)
+    x = ufl.SpatialCoordinate(dom)
+    if term == "mass":
+        form = inner(u, v) * dx
+    elif term == "stiff":
+        form = inner(grad(u), grad(v)) * dx
+    elif term == "coefmass":
+        form = ufl.Coefficient(ufl.FunctionSpace(dom, tp(1))) * inner(u, v) * dx
+    elif term == "xmass":
+        form = x[0] * inner(u, v) * dx
+    elif term == "load":
+        form = inner(ufl.Coefficient(V), v) * dx
+    elif term == "withds":
+        form = inner(u, v) * dx + inner(u, v) * ds
+    else:
+        raise ValueError(term)
+    return {"form": form, "exact_ok": True, "case": t}
